@@ -28,22 +28,25 @@ DRIVERS = ["C04"]
 LEVEL = "proof"
 MANIFEST = {
     "category": "proof",
-    "text": ("PARTIAL (token level). Lean 4 theorems about an executable model of the model-language pipeline: shifting all names of any "
-             "expression tree by k evaluates to the tree at t+k (function names untouched); each of the twelve pseudofunction spellings expands "
-             "to a tree that evaluates to its documented formula for all data, periods, shifts and window lengths (mov_* by induction on the "
-             "window); `lhs = rhs` evaluates to rhs - lhs; steady-variant selection; anticipated-shock insertion; for every well-nested "
-             "!for/!if/!else forest of any depth the flat directive machine (level counting, matching !end/!else, control-name substitution "
-             "with upper/lower forms) returns the denotation of the forest; log status with !all-but is the complement; quantities are "
-             "ordered by kind keeping declaration order; the keyword-alias normaliser maps every documented spelling to its canonical "
-             "keyword and never touches names or the `!!` separator (also glued: `!!k_ss`); substitution resolution is a pure function of the "
-             "source's own definitions (textual, last definition wins, translating a sequence of sources is the map of the one-source "
-             "function); a recursive-descent parser reads back every printed expression/equation (`parse (print e) = e`) and the composed "
-             "end-to-end statement (expand, print, parse, translate, evaluate = documented rhs - lhs) has input-level hypotheses only; moving "
-             "windows are written out for both signs and explicit zero shifts are not the default. Character-level parsing (regexes, Jinja2, PEG grammars, comments, continuation "
-             "lines, bracket styles, parentheses) is NOT in the theorems: it is tied by correspondence on every run -- structured random "
-             "models rendered with all syntactic alternatives, compared exactly (names, kinds, descriptions, log status, dyadic-exact "
-             "equation values) or within 1e-9 (non-polynomial trees) with the model and with an independent evaluator of the unexpanded "
-             "equations, which supplies the replay."),
+    "text": ("PARTIAL (token level; characters by correspondence). Lean 4 theorems about an executable model of the model-language pipeline: "
+             "shifting all names of any expression tree by k evaluates to the tree at t+k (function names untouched); each pseudofunction "
+             "(12 spellings, default shifts -1/-4, an explicit 0 is not the default) expands to a tree that evaluates to its documented formula "
+             "over any field for all data, periods and shifts; mov_sum/mov_avg/mov_prod for every NON-ZERO window of either sign (induction on "
+             "the window; mov_sum also for 0; mov_avg/mov_prod of an empty window are not covered); `lhs = rhs` evaluates to rhs - lhs; "
+             "`!!` steady-variant selection; anticipated-shock insertion; macro expansion succeeds exactly when every `$s$` is defined; for every "
+             "well-nested !for/!if/!else forest of any depth the flat directive machine (level counting, matching !end/!else, control-name "
+             "substitution with upper/lower forms) returns the denotation of the forest, misplaced/unclosed directives and failing `<...>` are "
+             "rejected (the recursion budget is proved sufficient for well-nested input only); log status with !all-but is the complement; "
+             "quantities are ordered by kind keeping declaration order; the keyword-alias normaliser maps the 31 documented spellings to their "
+             "canonical keyword and never touches names or `!!...`; substitution resolution is a pure textual function of the source's own "
+             "definitions (last definition wins); a recursive-descent parser reads back every FULLY PARENTHESISED printed expression/equation "
+             "(`parse (print e) = e`) and the composed statement expand -> print -> parse -> -(lhs)+rhs -> evaluate = documented rhs - lhs "
+             "has input-level hypotheses only; for minimally parenthesised text a precedence parser is modelled and its "
+             "precedence/associativity table is proved on three-operand shapes for all names (`^` right-associative, unary minus vs `^`, "
+             "`-(lhs)+a+b` reads ((-lhs)+a)+b) -- its general round trip is NOT proved, it is tied by correspondence; `<...>` stringification "
+             "of integers and plain decimals prints every digit (text re-read = value). Not in the theorems, tied on every run by "
+             "correspondence with an independent evaluator: regexes, Jinja2, PEG grammars, comments, continuation lines, bracket styles, the "
+             "tokeniser, float repr (shortest round trip) and exponent forms, numerical meaning of function symbols."),
     "design": "7/C04",
     "note": "proof level is partial: token-level theorems, character-level parsing by correspondence only",
     "technique": "Lean 4 proof over executable token-level model + differential correspondence on rendered sources + independent evaluator",
@@ -915,9 +918,80 @@ def full_text(tree, rng):
     raise ValueError(tree)
 
 
-def run_parse_stream(ctx: Ctx, n: int):
+_PREC = {"+": 1, "-": 1, "*": 2, "/": 2, "neg": 3, "^": 4}
+
+
+def min_text(tree, rng, need=0):
+    """minimally parenthesised spelling by Python's precedence rules (a parenthesis only where the tree shape needs one, plus
+    a few redundant ones): left-associative `+ - * /`, right-associative `^` whose exponent may carry a unary minus,
+    unary minus looser than `^` on its left and tighter than `* /`"""
+    k = tree[0]
+    sp = lambda: rng.choice(["", " "])
+    if k in ("num", "name"):
+        return full_text(tree, rng)
+    if k == "f1":
+        return tree[1] + "(" + sp() + min_text(tree[2], rng) + sp() + ")"
+    if k == "f2":
+        return tree[1] + "(" + min_text(tree[2], rng) + sp() + "," + sp() + min_text(tree[3], rng) + ")"
+    if k == "neg":
+        txt, p = "-" + sp() + min_text(tree[1], rng, 3), 3
+    else:
+        op = tree[1]
+        p = _PREC[op]
+        if op == "^":
+            txt = min_text(tree[2], rng, 5) + sp() + rng.choice(["^", "**"]) + sp() + min_text(tree[3], rng, 3)
+        else:
+            txt = min_text(tree[2], rng, p) + sp() + op + sp() + min_text(tree[3], rng, p + 1)
+    if p < need or rng.chance(0.05):
+        txt = "(" + sp() + txt + sp() + ")"
+    return txt
+
+
+def run_stringify_stream(ctx: Ctx, n: int):
+    """`preparser._stringify` on ints, floats given by at most 15 significant decimal digits, and tuples/lists of them, vs the
+    Lean `stringifyList` (text) -- and the oracle: the text re-read as a number is the value (no digit is dropped)"""
+    rng = ctx.rng.fork("stringify")
+    lines, impl, cases = [], [], []
+    for i in range(n):
+        vals = []
+        for _ in range(rng.weighted([(1, 5), (2, 2), (3, 1), (4, 1)])):
+            c = rng.weighted([("int", 2), ("whole", 1), ("dec", 6)])
+            if c == "int":
+                vals.append((rng.randint(-10 ** rng.randint(0, 12), 10 ** rng.randint(0, 12)), 0, int))
+            elif c == "whole":
+                vals.append((rng.randint(-9999, 9999) * 10, 1, float))
+            else:
+                k = rng.randint(1, 12)
+                digs = rng.randint(1, min(15, k + 4))
+                m = rng.randint(1, 10 ** digs - 1)
+                if m % 10 == 0: m += 1
+                if len(str(m)) <= k and k > 4:
+                    # python prints 1e-05 and smaller in exponent form: stay with plain decimals
+                    m += 10 ** (k - 1) * rng.randint(1, 9) if k <= 15 else 0
+                    if len(str(m)) > 15: continue
+                vals.append((m * (-1 if rng.chance(0.3) else 1), k, float))
+        if not vals:
+            continue
+        pyvals = [(n_ if ty is int else float(Fraction(n_, 10 ** k))) for n_, k, ty in vals]
+        obj = pyvals[0] if len(pyvals) == 1 else (tuple(pyvals) if rng.chance(0.5) else list(pyvals))
+        text = _pp._stringify(obj)
+        # oracle: every element re-read gives the value back exactly
+        back = [Fraction(t) for t in text.split(",")]
+        want = [Fraction(n_, 10 ** k) for n_, k, ty in vals]
+        ctx.evaluations += 1
+        if back != want:
+            ctx.fail("contextual-expression-value", {"stream": "stringify", "values": [str(w) for w in want]},
+                     f"_stringify gives {text!r}: re-read {[str(b) for b in back]}, the values are {[str(w) for w in want]}")
+        lines.append("strfy " + " ".join(f"{Fraction(n_, 10 ** k).numerator}/{Fraction(n_, 10 ** k).denominator}@{k}" for n_, k, ty in vals))
+        impl.append("ok " + text + " | " + " ".join(L.rat_text(b) for b in back))
+    ctx.compare("stringify", lines, impl, ctx.model("C04", lines))
+
+
+def run_parse_stream(ctx: Ctx, n: int, prec=False):
     """print -> text -> tokens -> Lean `parseEqn` -> translate -> evaluate, against irispie on the same text and the structure"""
-    rng = ctx.rng.fork("parse")
+    rng = ctx.rng.fork("pparse" if prec else "parse")
+    printer = min_text if prec else full_text
+    opname = "pparse" if prec else "parse"
     decls = [["tv", "x", ""], ["tv", "y", ""], ["par", "a", ""], ["par", "b", ""], ["exo", "z", ""]]
     pools = {"tv": [("name", "x"), ("name", "y")], "par": [("name", "a"), ("name", "b")], "exo": [("name", "z")]}
     lines, cases = [], []
@@ -932,7 +1006,7 @@ def run_parse_stream(ctx: Ctx, n: int):
             tr = ["name", "y", -1]
         lhs = ["name", "x", 0] if r.chance(0.8) else ["bin", "*", ["name", "x", 0], ["name", "a", 0]]
         eqn = ["eq", lhs, tr] if r.chance(0.9) else ["bare", ["bin", "-", lhs, tr]]
-        text = (full_text(eqn[1], r) + r.choice([" = ", ":=", "="]) + full_text(eqn[2], r)) if eqn[0] == "eq" else full_text(eqn[1], r)
+        text = (printer(eqn[1], r) + r.choice([" = ", ":=", "="]) + printer(eqn[2], r)) if eqn[0] == "eq" else printer(eqn[1], r)
         eqs = [{"kind": "T", "descr": "", "dyn": eqn, "steady": None},
                {"kind": "T", "descr": "", "dyn": ["eq", ["name", "y", 0], ["bin", "*", ["name", "a", 0], ["name", "y", -1]]], "steady": None}]
         sm = {"decls": decls, "decl_groups": [], "family_tokens": [], "eqs": eqs, "eq_groups": [], "subs": [], "logset": [], "features": []}
@@ -942,17 +1016,19 @@ def run_parse_stream(ctx: Ctx, n: int):
         case = {"sm": sm, "data": data, "t": T0, "variants": [(source, spec, {"allbut": False, "listed": []}, [], [])], "lean": False}
         check_model_case(ctx, case, None)
         rows = " ".join(f"{nm}={min(data[nm])}:" + ",".join(L.rat_text(data[nm][p]) for p in sorted(data[nm])) for nm in sorted(data))
-        lines.append(f"parse {T0} " + " ".join(tokenise(text)) + " | " + rows)
+        lines.append(f"{opname} {T0} " + " ".join(tokenise(text)) + " | " + rows)
         cases.append((eqn, source, spec, data, text))
     replies = ctx.model("C04", lines)
     if replies is None:
         return
     for (eqn, source, spec, data, text), rep in zip(cases, replies):
-        ctx.streams_compared["parse"] = ctx.streams_compared.get("parse", 0) + 1
-        case = {"stream": "parse", "text": text}
+        ctx.streams_compared[opname] = ctx.streams_compared.get(opname, 0) + 1
+        case = {"stream": opname, "text": text}
         parts = rep.split(" | ")
+        if prec and len(parts) == 2:
+            parts = [parts[0], "T", parts[1]]
         if len(parts) != 3 or parts[0] != "ok " + L.enc_eqn(eqn) or parts[1] != "T":
-            ctx.disagree("parse", case, "ok " + L.enc_eqn(eqn) + " | T", rep)
+            ctx.disagree(opname, case, "ok " + L.enc_eqn(eqn) + " | T", rep)
             continue
         line, dyn, std = impl_model(source, spec, data, T0)
         if std is None and is_int_power_finding(str(dyn), {"eqs": [{"dyn": eqn, "steady": None}]}, {}):
@@ -996,6 +1072,9 @@ def subs_exec(ctx: Ctx, line: str, history):
 
 
 def replay_payload(ctx: Ctx, p, with_model=True):
+    if p.get("stream") == "stringify":
+        run_stringify_stream(ctx, 400)
+        return
     if p.get("stream") == "kwnorm":
         run_kwnorm_stream(ctx, 0)
         return
@@ -1041,6 +1120,8 @@ def run(ctx: Ctx):
     run_kwnorm_stream(ctx, ctx.n(600, 20000))
     run_subs_stream(ctx, ctx.n(400, 10000))
     run_parse_stream(ctx, ctx.n(150, 3000))
+    run_parse_stream(ctx, ctx.n(250, 5000), prec=True)
+    run_stringify_stream(ctx, ctx.n(400, 8000))
     run_functions_stream(ctx, ctx.n(8, 120))
     run_context_values_stream(ctx, ctx.n(150, 3000))
     run_prep_stream(ctx, ctx.n(2500, 60000))
